@@ -156,7 +156,7 @@ func init() { core.Register("c15", c15Handler) }
 func c15Alphabet(core bool) []tarx.Entry {
 	T2 := tarx.BaseTime.Add(36*time.Hour + 500*time.Millisecond).UnixNano()
 	var es []tarx.Entry
-	regNames := []string{"a", "d/x", "d/e/y", "./a", "/a"}
+	regNames := []string{"a", "d/x", "d/e/y", "./a", "/a", "..a", ".../x"}
 	dirNames := []string{"d/", "d/e/", "d"}
 	if core {
 		regNames = []string{"a", "d/x", "/a"}
